@@ -98,6 +98,8 @@ def handleTL (st : St) (n : Nat) (toks : List String) : Result := Id.run do
   if reached != final then
     let f := fail st n "C18" s!"long-running SumDB feeder did not follow the growing log {want}: witness stuck at {reached} (steps {steps})"
     st := f.st; outs := outs ++ f.out
+    let f := fail st n "C14" s!"a feeder running without restart stopped following its honest log {want}: stuck at {reached}"
+    st := f.st; outs := outs ++ f.out
   if steps.any (fun s => s.endsWith ":0") then
     let f := fail st n "C18" s!"long-running SumDB feeder submitted a proof that is not the RFC 6962 proof: {steps}"
     st := f.st; outs := outs ++ f.out
